@@ -2,6 +2,10 @@
 #pragma once
 #include <cstdarg>
 
+#include <asam_cmp/packet.h>
+
+#include <type_traits>
+
 #include "engines/obj_fields.h"
 #include "mc/harness.h"
 
@@ -118,10 +122,21 @@ static T background(const tbl::Cls<T>& c, int bg, int extra)
 
 // ---- C11 --------------------------------------------------------------------------------------------
 template <class T>
-static void c11One(W& w, const tbl::Cls<T>& c, size_t fi, int bg, int extra, uint64_t v, const T& base, const std::vector<uint64_t>& g0, const Bytes& raw0)
+static void c11One(W& w, const tbl::Cls<T>& c, size_t fi, int bg, int extra, uint64_t v, const T& base, const std::vector<uint64_t>& g0, const Bytes& raw0, bool held = false)
 {
     const auto& f = c.fields[fi];
-    T t = base;
+    T own = base;
+    // payload classes: also on the object a Packet holds after setPayload (a base-class copy), reached through getPayload() and a cast,
+    // which is how the library's users (and its own tests) edit the payload of a packet in place
+    [[maybe_unused]] ASAM::CMP::Packet holder;
+    T* tp = &own;
+    if constexpr (std::is_base_of_v<ASAM::CMP::Payload, T>)
+        if (held)
+        {
+            holder.setPayload(base);
+            tp = &static_cast<T&>(holder.getPayload());
+        }
+    T& t = *tp;
     f.set(t, v);
     w.add(mc::C_TRANS, 1);
     uint64_t got = f.get(t);
@@ -199,6 +214,8 @@ static void c11Field(W& w, const tbl::Cls<T>& c, size_t fi, int onlyBg = -1, int
                 if (!single && !w.begin_case(desc))
                     continue;
                 c11One(w, c, fi, bg, extra, v, base, g0, raw0);
+                if constexpr (std::is_base_of_v<ASAM::CMP::Payload, T>)
+                    c11One(w, c, fi, bg + 10, extra, v, base, g0, raw0, true);   // reported as background 10..13: inside a Packet
                 w.add(mc::C_TRACES, 1);
                 w.add(mc::C_STATES, 1);
                 w.outcome(mc::mix(mc::mix(mc::fnv_s(c.name + f.name), (uint64_t) __builtin_popcountll(v)), (uint64_t) bg * 8 + extra));
